@@ -9,8 +9,12 @@ mkdir -p "$V/.build"
 if [ ! -x "$V/.build/vinstr" ] || [ -n "$(find "$V/tools/vinstr" -name '*.go' -newer "$V/.build/vinstr")" ]; then
   (cd "$V/tools/vinstr" && go build -o "$V/.build/vinstr" .)
 fi
-SCRATCH=$(mktemp -d "${VERIF_SCRATCH:-/dev/shm}/vinstr.XXXXXX")
-trap 'rm -rf "$SCRATCH"' EXIT
+if [ -n "${E1_KEEP_SCRATCH:-}" ]; then
+  SCRATCH="$E1_KEEP_SCRATCH"; mkdir -p "$SCRATCH"   # the caller removes it (tools/racecross.sh reads the rewritten files)
+else
+  SCRATCH=$(mktemp -d "${VERIF_SCRATCH:-/dev/shm}/vinstr.XXXXXX")
+  trap 'rm -rf "$SCRATCH"' EXIT
+fi
 "$V/.build/vinstr" -repo "$R" -out "$SCRATCH" -vsched "$V/engine/vsched" -extra "$R/html/zz_verif_reset.go=$V/engine/hooks/html_reset.go" > "$SCRATCH/vinstr.log" || { cat "$SCRATCH/vinstr.log" >&2; exit 2; }
 cp "$SCRATCH/vinstr-report.json" "$V/.build/vinstr-report.json"
-(cd "$V/harness" && go build -overlay "$SCRATCH/overlay.json" -o "$OUT" "./cmd/$NAME")
+(cd "$V/harness" && go build ${E1_GOFLAGS:-} -overlay "$SCRATCH/overlay.json" -o "$OUT" "./cmd/$NAME")
